@@ -24,6 +24,8 @@ type Gen struct {
 	pkgs            map[string]*packages.Package
 	spkgs           map[string]*ssa.Package
 	immTypes        []*types.Named
+	callOrds        map[*ssa.Function]map[ssa.CallInstruction]callOrd
+	defOrds         map[*ssa.Function]map[*ssa.DebugRef]callOrd
 	db              *SpecDB
 	ghostSorts      map[string]string
 	nonNilGlob      map[*ssa.Global]int
